@@ -244,7 +244,7 @@ func (g *generator) walkOneOf(schema *schemaparser.Schema) (ast.Type, error) {
 		return ast.Type{}, err
 	}
 
-	return ast.NewDisjunction(branches), nil
+	return ast.NewDisjunction(branches, ast.Default(unwrapJSONNumbers(schema.Default))), nil
 }
 
 // TODO: what's the difference between oneOf and anyOf?
@@ -258,7 +258,7 @@ func (g *generator) walkAnyOf(schema *schemaparser.Schema) (ast.Type, error) {
 		return ast.Type{}, err
 	}
 
-	return ast.NewDisjunction(branches), nil
+	return ast.NewDisjunction(branches, ast.Default(unwrapJSONNumbers(schema.Default))), nil
 }
 
 func (g *generator) walkAllOf(schema *schemaparser.Schema) (ast.Type, error) {
